@@ -113,7 +113,10 @@ func c19Peer(s *simkit.Sim, rc *simkit.RunCtx, sample *c19Sample) {
 	w.P2P.OnPanic = func(node, typ string, v interface{}, stack []byte) {
 		s.Fail("C19.no-panic", panicSite(stack), "handling a %s envelope panicked on %s: %v\n%s", typ, node, v, stack)
 	}
-	gossip := func(c *network.Config) { c.ProtocolV2.GossipInterval = 500; c.ProtocolV2.PayloadRetryDelay = 2 * time.Second }
+	gossip := func(c *network.Config) {
+		c.ProtocolV2.GossipInterval = 500
+		c.ProtocolV2.PayloadRetryDelay = 2 * time.Second
+	}
 	n1, err := w.StartNode(world.NodeOpts{Name: "n1", DIDMethods: "nuts", NetConfig: gossip})
 	if err != nil {
 		s.Fail("C19.harness", "start", "%v", err)
@@ -809,7 +812,9 @@ func c19HTTP(s *simkit.Sim, rc *simkit.RunCtx, sample *c19Sample) {
 		beforeAS = sqlDigest(as)
 		var code int
 		var body []byte
-		if !op("activate", func() { code, body = cl.Call("POST", "/internal/discovery/v1/sim-svc/vendorB", map[string]interface{}{}) }) {
+		if !op("activate", func() {
+			code, body = cl.Call("POST", "/internal/discovery/v1/sim-svc/vendorB", map[string]interface{}{})
+		}) {
 			return
 		}
 		sample.Answers = append(sample.Answers, fmt.Sprintf("activate: %d %s", code, trunc(string(body), 80)))
